@@ -17,6 +17,9 @@ type Clock struct {
 	ch       chan time.Time
 	// Resets counts Reset calls, Stops counts Stop calls (observability for the harness).
 	Resets, Stops int
+	// OnStop, when set, runs at the start of every Stop call, before the clock's own lock is taken: the concurrent
+	// families park a caller there (i.e. in the middle of the store's re-arm sequence).
+	OnStop func()
 }
 
 func New(now time.Time) *Clock {
@@ -32,6 +35,9 @@ func (c *Clock) Now() time.Time {
 func (c *Clock) C() <-chan time.Time { return c.ch }
 
 func (c *Clock) Stop() bool {
+	if f := c.OnStop; f != nil {
+		f()
+	}
 	c.mu.Lock()
 	defer c.mu.Unlock()
 	c.Stops++
